@@ -1,0 +1,13 @@
+//go:build verif
+// +build verif
+
+// Exported wrappers used only by the verification harness (build tag "verif", add-only).
+
+package lb
+
+// VerifSetRandInt replaces the random source of the balancers and returns a restore func.
+func VerifSetRandInt(f func() int) func() {
+	old := randInt
+	randInt = f
+	return func() { randInt = old }
+}
